@@ -10,5 +10,5 @@ for d in sorted(glob.glob(os.path.join(HERE, 'seeded', '*', ''))):
     missed = [r['check'] for r in m['results'] if r['rc'] != 1]
     mech = '; '.join('%s: %s' % (r['check'], ' '.join(r['mechanisms'].split()[:2])) for r in caught)
     print('| %s | %s | %s | %s%s | %s |' % (m['name'], m['property'], m.get('needs_to_manifest', ''),
-          ', '.join(r['check'] for r in caught) or (('no longer breaks the property on HEAD (%s); when planted: %s' % (m['neutralised_by'].split(':')[0], m.get('caught_when_planted', '?'))) if m.get('neutralised_by') else 'NOT CAUGHT'),
+          ', '.join(r['check'] for r in caught) or (('no longer breaks the property on HEAD (%s); when planted: %s' % (m['neutralised_by'].split(':')[0], m.get('caught_when_planted', '?'))) if m.get('neutralised_by') else (('not caught: outside the quantifier — ' + m['outside_quantifier']) if m.get('outside_quantifier') else 'NOT CAUGHT')),
           (' (silent, as expected: ' + ', '.join(missed) + ')') if missed and caught else '', mech[:260]))
